@@ -13,17 +13,17 @@ def items():
     out = []
     for p in sorted(glob.glob(os.path.join(HERE, "mutants", "*.patch"))):
         name = os.path.basename(p)[:-6]
-        out.append((name, name.split("-")[0], p, "quick", None, {}))
+        out.append((name, name.split("-")[0], p, "quick", None, {}, "caught"))
     for d in sorted(glob.glob(os.path.join(HERE, "seeded", "*"))):
         meta = os.path.join(d, "meta.json")
         if os.path.exists(meta) and os.path.exists(os.path.join(d, "patch.diff")):
             m = json.load(open(meta))
             for pid in m.get("caught_by_expected", [m["property"]]):
-                out.append(("seeded/" + os.path.basename(d) + "@" + pid, pid, os.path.join(d, "patch.diff"), m.get("tier", "quick"), m.get("runs"), m.get("env", {})))
+                out.append(("seeded/" + os.path.basename(d) + "@" + pid, pid, os.path.join(d, "patch.diff"), m.get("tier", "quick"), m.get("runs"), m.get("env", {}), m.get("expected_outcome", "caught")))
     return [x for x in out if pat in x[0]]
 
 def one(item):
-    name, pid, patch, tier, nruns, xenv = item
+    name, pid, patch, tier, nruns, xenv, expected = item
     t0 = time.time()
     wt = tempfile.mkdtemp(prefix="mut-", dir="/tmp")
     os.rmdir(wt)
@@ -38,6 +38,8 @@ def one(item):
         viol = [l for l in r.stdout.splitlines() if l.startswith("VIOLATION")]
         detail = next((l.strip() for l in r.stdout.splitlines() if l.startswith("  class=")), "")
         status = "caught" if r.returncode == 1 and viol else ("MISSED" if r.returncode == 0 else f"HARNESS(exit {r.returncode})")
+        if expected != "caught" and status != "caught":
+            status = "not-caught(documented)"
         if status.startswith("HARNESS"):
             detail = r.stdout[-600:]
         return name, status, detail[:230], time.time() - t0
@@ -51,6 +53,6 @@ bad = 0
 with cf.ThreadPoolExecutor(jobs) as ex:
     for name, status, detail, dt in ex.map(one, its):
         print(f"{status:8s} {name:48s} {dt:6.1f}s  {detail}", flush=True)
-        bad += status != "caught"
-print(f"{len(its) - bad}/{len(its)} caught")
+        bad += status not in ("caught", "not-caught(documented)")
+print(f"{len(its) - bad}/{len(its)} as expected (caught, or documented as out of reach)")
 sys.exit(1 if bad else 0)
